@@ -26,11 +26,22 @@ def count_paths(body, label_fn, max_states=4096):
     """Path-sensitive effect counting.  label_fn(bi, term) -> label or None for call terminators.
     Returns [(PathState at return, {label: count (saturating at 2)})]."""
     def node_fn(s, bi, si, node):
-        if node["k"] == "assign" and node["rv"]["k"] == "agg" and node["rv"].get("ak") == "adt" and node["rv"].get("adt", "").endswith("MetricType"):
-            tg = place_target(body, node["pl"])
-            if tg is not None and tg[0] == "var":
-                d = dict(s.user or ())
-                d["$" + tg[1]] = node["rv"]["variant"]
+        if node["k"] == "assign" and not node["pl"]["p"] and node["rv"]["k"] == "agg" and node["rv"].get("ak") == "adt" and node["rv"].get("adt", "").endswith("MetricType"):
+            # a metric kind held in a local (named or not): remembered per path, also through plain copies
+            d = dict(s.user or ())
+            d["$#%d" % node["pl"]["l"]] = node["rv"]["variant"]
+            name = body.local_name.get(node["pl"]["l"])
+            if name:
+                d["$" + name] = node["rv"]["variant"]
+            return s.with_user(tuple(sorted(d.items())))
+        if node["k"] == "assign" and not node["pl"]["p"] and node["rv"]["k"] == "use" and node["rv"]["op"].get("k") in ("move", "copy") and not node["rv"]["op"]["pl"]["p"]:
+            d = dict(s.user or ())
+            src = "$#%d" % node["rv"]["op"]["pl"]["l"]
+            if src in d:
+                d["$#%d" % node["pl"]["l"]] = d[src]
+                name = body.local_name.get(node["pl"]["l"])
+                if name:
+                    d["$" + name] = d[src]
                 return s.with_user(tuple(sorted(d.items())))
         if node["k"] == "call":
             lab = label_fn(bi, node)
@@ -59,6 +70,14 @@ def count_paths(body, label_fn, max_states=4096):
 def build_key_of(body):
     bk = calls_to(body, "KeyBuilder::build_key")
     if len(bk) != 1:
+        # the two halves computed separately: whether that is allowed is R18.3's business (C02 / C18); the rules that
+        # only need to know which value is the index hash keep working
+        hi_ = calls_to(body, "KeyBuilder::hash_index")
+        hc_ = calls_to(body, "KeyBuilder::hash_conflict")
+        if not bk and len(hi_) == 1 and len(hc_) <= 1:
+            ei = norm(body.call_expr(hi_[0][1], True))
+            ec = norm(body.call_expr(hc_[0][1], True)) if hc_ else ("const", 0, "u64")
+            return hi_[0], ("agg", "tuple", "", (ei, ec), ()), ei, ec
         raise AnchorMissing("%s: expected one build_key call, found %d" % (body.spath, len(bk)))
     e = norm(body.call_expr(bk[0][1], True))
     return bk[0], e, ("field", e, "0"), ("field", e, "1")
@@ -280,7 +299,7 @@ def check_C16(rep, fl):
 
 def check_hit_miss(rep, fl, rule="R17.1"):
     for m in ("get", "get_mut"):
-        b = fl.cache_fn(m)
+        b = fl.facts.flat(fl.cache_fn(m))
         (bkb, bkt), bke, index, conflict = build_key_of(b)
         sg = calls_to(b, "store::ShardedMap::" + m)
         if len(sg) != 1:
@@ -505,29 +524,35 @@ def check_update_metrics(rep, fl):
 def check_admission_metrics(rep, fl):
     """R17.4: track_admission iff added; KeyAdd(1); add returns true iff increment on the path."""
     facts = fl.facts
-    hi = fl.proc_fn("handle_item")
-    at, entry = dataflow(hi)
-    ta = calls_to(hi, fl.processor + "::track_admission")
+    # on the flattened handler (track_admission spliced in, wherever the tick itself is written): KeyAdd(key, 1) is
+    # counted once on every path on which policy.add reported `added` and the store insert did not fail, and on
+    # no other path (not for a refused item, not in the Update / Delete / Wait arms)
+    hi = facts.flat(fl.proc_fn("handle_item"))
     adds = calls_to(hi, fl.policy + "::add")
-    ok = len(ta) == 1 and len(adds) == 1
+    ok = len(adds) == 1
+    why = "policy.add sites: %d" % len(adds)
     if ok:
         added = ("field", norm(hi.call_expr(adds[0][1], True)), "1")
-        good, cx = all_states(hi, at, (ta[0][0], term_idx(hi, ta[0][0])), A(added), hist=True)
-        a = [norm(x) for x in hi.call_args(ta[0][1])]
-        ok = good and a[1] == item_field("New", "key")
-        # and on the added edge it is always reached (unless the store insert fails)
-        for bi in hi.live_blocks():
-            t = hi.term(bi)
-            if t and t["k"] == "switch":
-                for tgt, atom, pol in edge_literals(hi, bi):
-                    if atom is not None and norm(hi.expand(atom)) == added and pol is True:
-                        errs = [x for x, tt in hi.calls() if callee_matches(hi.callee_of(tt), "FromResidual::from_residual")]
-                        ok = ok and must_pass_through(hi, [ta[0][0]] + errs, from_bi=tgt)
-    rep.check(ok, "R17.4", fl, hi, "track_admission iff added", "track_admission(key) runs exactly for admitted New items", "track_admission is not called exactly when policy.add reported `added`")
-    tb = facts.body(fl.processor + "::track_admission")
-    ticks = [metric_tick(tb, t) for _, t in tb.calls() if metric_tick(tb, t)]
-    ok = len(ticks) == 1 and ticks[0][0] == "KeyAdd" and ticks[0][1] == V("key") and ticks[0][2] == ("const", 1, "u64") and must_pass_through(tb, [b for b, t in tb.calls() if metric_tick(tb, t)])
-    rep.check(ok, "R17.4", fl, tb, "KeyAdd(1)", "track_admission ticks KeyAdd(key, 1) on every path", "track_admission does not tick KeyAdd(key, 1) exactly once")
+
+        def lab(bi, t):
+            mt = metric_tick(hi, t)
+            if mt and mt[0] == "KeyAdd":
+                return "KeyAdd" if (mt[1] == item_field("New", "key") and mt[2] == ("const", 1, "u64")) else "KeyAdd!badargs"
+            return None
+        outs, at = count_paths(hi, lab)
+        ok = bool(outs)
+        for s_, cnt in outs:
+            es = expand_state(hi, s_, hist=True)
+            adm = [v for a, v in es.lits if a == added]
+            failed = any(a[0] == "variant" and a[2] == "Break" and v and any(is_call(c, "try_insert") for c in calls_in(a[1])) for a, v in es.lits)
+            want = {"KeyAdd": 1} if (adm == [True] and not failed) else {}
+            if failed and adm == [True] and cnt in ({}, {"KeyAdd": 1}):
+                continue
+            if cnt != want:
+                ok = False
+                why = "path [%s] counts %s" % (show_state(es)[:200], cnt)
+    rep.check(ok, "R17.4", fl, hi, "KeyAdd iff added", "KeyAdd(key, 1) is counted exactly once for every admitted New item and never otherwise",
+              "keys_added is not counted exactly for the admitted New items: %s" % why)
     # add(): returns (_, true) iff an increment is on the path
     add = fl.policy_fn("add")
 
@@ -884,7 +909,7 @@ def check_metric_sites(rep, fl, rule="R17.10"):
     other = "r#async" if fl.name == "sync" else "::sync::"
     allowed = {
         "Hit": {fl.cache + "::get", fl.cache + "::get_mut"}, "Miss": {fl.cache + "::get", fl.cache + "::get_mut"},
-        "KeyAdd": {fl.processor + "::track_admission"}, "KeyUpdate": {"policy::SampledLFU::update"},
+        "KeyAdd": {fl.processor + "::track_admission", fl.processor + "::handle_item"}, "KeyUpdate": {"policy::SampledLFU::update"},
         "KeyEvict": {fl.policy + "::add", fl.policy + "::remove"}, "CostEvict": {fl.policy + "::add", fl.policy + "::remove"},
         "CostAdd": {fl.policy + "::add", "policy::SampledLFU::update"}, "DropSets": {fl.cache + "::try_insert_in"},
         "RejectSets": {fl.policy + "::add"}, "DropGets": {fl.policy + "::push"}, "KeepGets": {fl.policy + "::push"},
@@ -905,7 +930,21 @@ def check_metric_sites(rep, fl, rule="R17.10"):
                     bad.append("%s adds %s" % (root, kind))
             else:
                 # a kind held in a variable: every value it can take must be allowed here
-                vals = {x[2].split("::")[-1] for d in var_def_exprs(fb, k) for x in [norm(d)] if x[0] == "agg" and "MetricType::" in x[2]} if k[0] == "var" else set()
+                # a kind that is computed (`found.as_ref().map_or(Miss, |_| Hit)`, `if hit { Hit } else { Miss }`): every
+                # MetricType literal it can evaluate to - in the expression, its definitions, the closures it applies
+                vals = set()
+                todo = [norm(fb.expand(k))] + ([norm(d) for d in var_def_exprs(fb, k)] if k[0] == "var" else [])
+                seen_ = 0
+                while todo and seen_ < 50:
+                    seen_ += 1
+                    x = todo.pop()
+                    for sub in subexprs(x):
+                        if sub[0] == "agg" and "MetricType::" in str(sub[2]):
+                            vals.add(sub[2].split("::")[-1])
+                        elif sub[0] == "closure":
+                            cb_ = facts.closure_body(sub[1])
+                            if cb_ is not None:
+                                todo += [norm(r_) for r_ in return_exprs(cb_)]
                 if not vals or any(root not in allowed.get(v, set()) for v in vals):
                     bad.append("%s adds a metric kind it computes (%s)" % (root, show(k)))
     rep.check(not bad and n >= 15, rule, fl, "Metrics::add", "sites", "each of the %d Metrics::add sites counts a kind its function is responsible for" % n,
@@ -1062,13 +1101,16 @@ def check_C15(rep, fl):
                         ok = ok and must_pass_through(rb, [pp_[0][0]], from_bi=tgt)
         # batch handed over is a copy of the buffer
         a = [norm(x) for x in rb.call_args(pp_[0][1])]
-        ok = ok and a[0] == norm(F(V("self"), "cons")) and (is_call(a[1], "Clone::clone") or a[1][0] == "var")
+        taken = (is_call(a[1], "mem::replace") and len(a[1][2]) == 2 and (is_call(a[1][2][1], "Vec::with_capacity") or is_call(a[1][2][1], "Vec::new"))) or is_call(a[1], "mem::take")
+        ok = ok and a[0] == norm(F(V("self"), "cons")) and (is_call(a[1], "Clone::clone") or a[1][0] == "var" or taken)
     rep.check(ok, "R15.2", fl, rb, "flush iff full", "the batch is handed to the policy exactly when it reached capa", "the batch is not flushed exactly when len >= capa")
     # the buffer is emptied whatever the outcome: every path through the flush passes a clear / replacement
     if pp_:
         clears = [bi for bi, t in rb.calls() if callee_matches(rb.callee_of(t), "Vec::clear")]
         repl = [bi for bi, si, st in stmt_nodes(rb, lambda s: "*" in s["pl"]["p"]) if is_call(norm(rb.rvalue_expr(st["rv"], True)), "Vec::with_capacity")]
-        emptied = clears + repl
+        # `mem::take(&mut *data)` / `mem::replace(&mut *data, Vec::with_capacity(..))`: handed over and emptied in one step
+        tk = [bi for bi, t in rb.calls() if (callee_matches(rb.callee_of(t), "mem::take") or callee_matches(rb.callee_of(t), "mem::replace")) and "Vec<u64>" in (t.get("destty") or "")]
+        emptied = clears + repl + tk
         ok = bool(emptied) and (must_pass_through(rb, emptied, from_bi=pp_[0][0]) or any(block_dominates(rb, e, pp_[0][0]) for e in emptied))
         rep.check(ok, "R15.2", fl, rb, "emptied", "the batch buffer is emptied whatever the outcome of the flush", "after a flush the buffer can keep its contents: the same lookups are recorded twice")
     import props_store
@@ -1134,7 +1176,10 @@ def check_C15(rep, fl):
 
 def check_policy_push(rep, fl, pb):
     facts = fl.facts
-    keys = V("keys")
+    # the batch is the second parameter, whatever it is called (for an async fn: the coroutine's capture of it)
+    shell = facts.body(fl.policy + "::push", required=False)
+    pname = (shell.local_name.get(2) if shell is not None and shell.arg_count >= 2 else None) or pb.local_name.get(2) or "keys"
+    keys = V(pname)
 
     def lab(bi, t):
         mt = metric_tick(pb, t)
@@ -1178,7 +1223,7 @@ def check_policy_push(rep, fl, pb):
     for rbi, rsi in pb.defs.get(0, []):
         e = norm(pb.def_expr(rbi, rsi, True))
         sts = at.get((rbi, rsi), set())
-        directs = {sum(dict(s.user or ()).values()) for s in sts}
+        directs = {sum(v_ for k_, v_ in (s.user or ()) if not k_.startswith("$")) for s in sts}
         if is_call(e, "Result::map_err") and is_call(e[2][0], "Result::map"):
             if directs != {0}:
                 ok = False
@@ -1188,7 +1233,7 @@ def check_policy_push(rep, fl, pb):
             for s, es in zip(sts, es_list):
                 closed = any(is_call(a, "load") and v for a, v in es.lits)
                 empty = any(a[0] == "bin" and a[1] == "Eq" and v and mentions(a, norm(n_len)) for a, v in es.lits)
-                d = dict(s.user or ())
+                d = {k_: v_ for k_, v_ in (s.user or ()) if not k_.startswith("$")}
                 if closed or empty:
                     continue
                 if d != {"DropGets": 1} or e[3][0] != ("const", 0, "bool"):
